@@ -134,17 +134,34 @@ class DisciplineJacApprox:
         self,
         output_names: Sequence[str],
         input_names: Sequence[str],
+        use_current_input_data: bool = False,
     ) -> None:
         """Create the Jacobian approximation class.
 
         Args:
             input_names: The names of the inputs used to differentiate the outputs.
             output_names: The names of the outputs to be differentiated.
+            use_current_input_data: Whether the inputs that are not differentiated
+                keep their current values rather than their default values.
 
         Raises:
             ValueError: If the Jacobian approximation method is unknown.
         """
-        self.func = self.generator.get_function(input_names, output_names)
+        default_input_data = READ_ONLY_EMPTY_DICT
+        if use_current_input_data:
+            # The inputs that are not differentiated keep their current values,
+            # except the ones that the discipline also computes
+            # (e.g. the couplings of an MDA),
+            # for which the default values remain the initial guesses.
+            discipline_io = self.discipline.io
+            default_input_data = {
+                name: value
+                for name, value in discipline_io.get_input_data().items()
+                if name not in discipline_io.output_grammar
+            }
+        self.func = self.generator.get_function(
+            input_names, output_names, default_input_data=default_input_data
+        )
         self.approximator = GradientApproximatorFactory().create(
             self.approx_method,
             self.func.evaluate,
@@ -273,7 +290,9 @@ class DisciplineJacApprox:
         Returns:
             The approximated Jacobian.
         """
-        self._create_approximator(output_names, input_names)
+        self._create_approximator(
+            output_names, input_names, use_current_input_data=True
+        )
 
         if self.auto_steps and all(key in self.auto_steps for key in input_names):
             step = (
@@ -291,10 +310,20 @@ class DisciplineJacApprox:
             msg = f"Inconsistent step size, expected {x_vect.size} got {len(step)}."
             raise ValueError(msg)
 
-        with self.__set_zero_cache_tol():
-            flat_jac = atleast_2d(
-                self.approximator.f_gradient(x_vect, x_indices=x_indices, step=step)
-            )
+        # The function evaluating the discipline sets its default input values:
+        # restore them after the approximation.
+        defaults = self.discipline.io.input_grammar.defaults
+        initial_defaults = dict(defaults)
+        try:
+            with self.__set_zero_cache_tol():
+                flat_jac = atleast_2d(
+                    self.approximator.f_gradient(
+                        x_vect, x_indices=x_indices, step=step
+                    )
+                )
+        finally:
+            defaults.clear()
+            defaults.update(initial_defaults)
 
         data_names_to_sizes = (
             self.discipline.io.output_grammar.data_converter.compute_names_to_sizes(
